@@ -107,6 +107,19 @@ class ApplyMonitors:
                 "step": self.describe_step(step), "doc": doc.to_json(), "error": repr(exc)})
         elif outcome == "invalid":
             self.invalid_docs[id(res.doc)] = res.doc
+            # C01 is quantified over schema-valid documents: a base document that an earlier
+            # application *outside* the quantifier (e.g. a fitter-built slice with an invalid closed
+            # node) left invalid, and that came back through JSON as a new object, is no judged case
+            base_bad = False
+            try:
+                doc.check()
+                base_bad = bool(validity.problems(doc))
+            except ValueError:
+                base_bad = True
+            if base_bad:
+                self.invalid_docs[id(doc)] = doc
+                self.probes["C01.base_document_invalid_not_judged"] += 1
+                return
             self.violation("C01", "apply.invalid_doc", {
                 "shape": kind, "step": self.describe_step(step), "doc": doc.to_json(),
                 "result": res.doc.to_json(), "error": err})
@@ -253,9 +266,11 @@ class ApplyMonitors:
             self.violation("C04", "undo.single_eq_false", dict(det, got=r.doc.to_json()))
 
     # ------------------------------------------------------------------ finished transforms
-    def on_transform(self, client, tr, refused, ops, exact_undo=True):
+    def on_transform(self, client, tr, refused, ops, exact_undo=True, tenant=False):
+        """`tenant`: a transaction of the second tenant (twin schema) - only the properties quantified
+        over all schemas are judged (not C04's history clauses, C16, C17)"""
         sim = self.sim
-        if "C04" in self.on:
+        if "C04" in self.on and not tenant:
             self.guard("C04", self.c04_transform, client, tr, refused, ops, exact_undo)
         if "C03" in self.on:
             for i, st in enumerate(tr.steps):
@@ -267,7 +282,7 @@ class ApplyMonitors:
                         "recorded": [list(m.ranges), m.inverted], "step_map": [list(g.ranges), g.inverted]})
         if "C08" in self.on:
             self.guard("C08", self.c08_transform, tr)
-        if ("C16" in self.on and self.is_core()) or "C10" in self.on:
+        if (("C16" in self.on and self.is_core()) or "C10" in self.on) and not (tenant and "C16" in self.on):
             n = len(tr.steps)
             for i in range(n - 1):
                 try:
